@@ -107,11 +107,13 @@ func c15Pair(c *Ctx) {
 			}
 		}
 	}
-	// provenance of the cached lists
-	if fn := c.NeedFn(rule, "client.updateMetadata"); fn != nil {
-		fi := Info(fn)
-		okIdx := map[int64]bool{}
-		fi.Each(func(it Item) {
+	// provenance of the cached lists: wherever a value is stored into cachedPartitionsResults[key], it is an array
+	// whose slot k holds setPartitionCache(key, k) for both sets; the array may be built in place or by a helper
+	// that receives the key as a parameter
+	builder := func(fn *ssa.Function) (map[int64]ssa.Value, *ssa.Alloc) {
+		slots := map[int64]ssa.Value{}
+		var arr *ssa.Alloc
+		Info(fn).Each(func(it Item) {
 			st, ok := it.In.(*ssa.Store)
 			if !ok {
 				return
@@ -135,12 +137,62 @@ func c15Pair(c *Ctx) {
 			if !ok || p.CalleeName(&cl.Call) != "client.setPartitionCache" || len(cl.Call.Args) != 3 {
 				return
 			}
-			if kk, ok := cl.Call.Args[2].(*ssa.Const); ok && kk.Int64() == k.Int64() && FieldLoad("TopicMetadata.Name")(cl.Call.Args[1]) {
-				okIdx[k.Int64()] = true
+			if kk, ok := cl.Call.Args[2].(*ssa.Const); ok && kk.Int64() == k.Int64() {
+				if arr == nil || arr == al {
+					arr = al
+					slots[k.Int64()] = cl.Call.Args[1]
+				}
 			}
 		})
-		c.Check(okIdx[0] && okIdx[1], rule, fn, "lists-from-setPartitionCache", nil, "cache[k] ← setPartitionCache(topic.Name, k) for k = allPartitions, writablePartitions",
-			"the cached partition lists are not rebuilt from setPartitionCache for both partition sets at their own index (e.g. the writable list stored in the all-partitions slot)", nil)
+		return slots, arr
+	}
+	nStores := 0
+	for _, fn := range p.Fns {
+		if p.Name(fn) == "client.Close" || fn.Pkg != p.Sarama {
+			continue
+		}
+		fi := Info(fn)
+		for _, s := range fi.Find(MapUpdateOn(rootedAt(cCache))) {
+			mu, ok := s.In.(*ssa.MapUpdate)
+			if !ok {
+				continue
+			}
+			nStores++
+			good := false
+			switch v := mu.Value.(type) {
+			case *ssa.UnOp: // array built in this function
+				slots, arr := builder(fn)
+				if al, ok := v.X.(*ssa.Alloc); ok && al == arr && slots[0] != nil && slots[1] != nil {
+					good = samePath(slots[0], mu.Key) && samePath(slots[1], mu.Key)
+				}
+			case *ssa.Call: // array built by a helper from the key it is given
+				if callee := v.Call.StaticCallee(); callee != nil && len(callee.Blocks) > 0 {
+					slots, arr := builder(callee)
+					retOK := arr != nil
+					for _, b := range callee.Blocks {
+						r, ok := b.Instrs[len(b.Instrs)-1].(*ssa.Return)
+						if !ok || IsRecoverBlock(b) {
+							continue
+						}
+						u, ok := RetVals(r)[0].(*ssa.UnOp)
+						if !ok || u.X != ssa.Value(arr) {
+							retOK = false
+						}
+					}
+					if retOK && slots[0] != nil && slots[1] != nil {
+						i0, i1 := paramIndexOf(callee, slots[0]), paramIndexOf(callee, slots[1])
+						if i0 >= 0 && i0 == i1 && i0 < len(v.Call.Args) {
+							good = samePath(v.Call.Args[i0], mu.Key)
+						}
+					}
+				}
+			}
+			c.Check(good, rule, fn, "lists-from-setPartitionCache", mu, "cache[topic][k] ← setPartitionCache(topic, k) for k = allPartitions, writablePartitions",
+				"the cached partition lists stored for a topic are not rebuilt from setPartitionCache of that topic for both partition sets at their own index (e.g. the writable list stored in the all-partitions slot)", nil)
+		}
+	}
+	if nStores == 0 {
+		c.Unresolved(rule, "no store into client.cachedPartitionsResults found")
 	}
 }
 
@@ -154,9 +206,18 @@ func c15Classes(c *Ctx) {
 		return
 	}
 	fi := Info(fn)
+	// the loop over the response's topics: the outermost loop containing the switch on topic.Err
+	terr := FieldLoad("TopicMetadata.Err")
+	cases := constCases(fn, terr)
 	var topicLoop *Loop
 	for _, l := range fi.Loops {
-		if len(fi.Iteration(l).Find(MapDeleteOn(FieldLoad(cMeta)))) > 0 && (topicLoop == nil || len(l.Blocks) > len(topicLoop.Blocks)) {
+		has := false
+		for tgt := range cases {
+			if l.Blocks[tgt] {
+				has = true
+			}
+		}
+		if has && (topicLoop == nil || len(l.Blocks) > len(topicLoop.Blocks)) {
 			topicLoop = l
 		}
 	}
@@ -165,8 +226,6 @@ func c15Classes(c *Ctx) {
 		return
 	}
 	reg := fi.Iteration(topicLoop)
-	terr := FieldLoad("TopicMetadata.Err")
-	cases := constCases(fn, terr)
 	stored := MapUpdateOn(FieldLoad(cMeta))
 	// named results are spilled to cells because of the deferred unlock
 	cell := func(name string) ssa.Value {
